@@ -174,6 +174,8 @@ pub fn manual_time_with_leeway_outside_precondition_panics() {
     kani::assume(now_ns - d_ns < MIN_NS);
     let c = RegisteredClaims { iss: None, sub: None, aud: None, exp: Some(exp), nbf: None, iat: None, jti: None };
     let _ = Time::valid_at(now).with_leeway(d).validate(&c);
+    // reached only if validate returned: it never does (this check is reported SUCCESS = unreachable)
+    kani::assert(false, "[boundary] TimeWithLeeway::validate returned although now - leeway is not representable");
 }
 
 #[kani::proof] #[kani::unwind(4)]
